@@ -180,9 +180,12 @@ def run_unit(unit, tier):
         m_ = extract.generate(tmpl, gen, canary=False, lenient=lenient)
         levels = extract.canary_levels(tmpl)
         cans_ = []
+        if not levels and m_.get("lemma_obligations"):
+            levels = [set()]
         for k, lv in enumerate(levels):
             cp = os.path.join(BUILD, "%s_canary%d.rs" % (unit, k))
-            cans_.append((cp, extract.generate(tmpl, cp, canary=lv, lenient=lenient)))
+            # the twins of the pure-spec lemmas (vacuity guard of their hypotheses) go into the first canary build
+            cans_.append((cp, extract.generate(tmpl, cp, canary=lv or {"-"}, lenient=lenient, lemma_canaries=(k == 0))))
         return m_, cans_
     try:
         try:
